@@ -385,22 +385,35 @@ func runC13(cfg runCfg, res *Result) error {
 				continue
 			}
 			for _, x := range extremes {
-				for variant := 0; variant <= len(pos); variant++ {
-					if variant > 0 && len(pos) == 1 {
-						break
+				for variant := 0; variant <= len(pos)+1; variant++ {
+					if variant > 0 && variant <= len(pos) && len(pos) == 1 {
+						continue
 					}
 					args := make([]string, len(t))
 					for i, a := range t {
 						switch a {
 						case "K":
 							args[i] = keys[n%len(keys)]
+							if variant == len(pos)+1 {
+								// once more with a key of the type the command works on
+								switch nm := t[0]; {
+								case strings.HasPrefix(nm, "l") && nm != "lcs", strings.HasPrefix(nm, "r") && nm != "rename" && nm != "restore", strings.HasPrefix(nm, "bl"), strings.HasPrefix(nm, "br"):
+									args[i] = "kl"
+								case strings.HasPrefix(nm, "h") && nm != "hello":
+									args[i] = "kh"
+								case strings.HasPrefix(nm, "s") && nm != "set" && nm != "setrange" && nm != "setbit" && nm != "setex" && nm != "substr" && nm != "sort" && nm != "scan" && nm != "select" && nm != "strlen":
+									args[i] = "ks"
+								default:
+									args[i] = "ka"
+								}
+							}
 						case "F":
 							args[i] = "0.01"
 						case "P":
 							args[i] = "*"
 						case "I", "#I":
 							v := "0"
-							if variant == 0 || pos[variant-1] == i {
+							if variant == 0 || variant == len(pos)+1 || pos[variant-1] == i {
 								v = x
 							}
 							if a == "#I" {
